@@ -1005,6 +1005,21 @@ impl<'a> WriteTxn<'a> {
             .collect()
     }
 
+    /// Relationships created in this transaction, and not deleted since, that start or end
+    /// at `node`. They are in no snapshot yet, so a caller that deletes `node` has to
+    /// consider them itself.
+    pub fn staged_edges(&self, node: InternalNodeId) -> Vec<crate::snapshot::EdgeKey> {
+        let mut edges: Vec<crate::snapshot::EdgeKey> = self
+            .sealed
+            .edges_of(node)
+            .filter(|edge| !self.memtable.is_tombstoned_edge(edge))
+            .chain(self.memtable.edges_of(node))
+            .collect();
+        edges.sort();
+        edges.dedup();
+        edges
+    }
+
     /// Statement boundary: everything written so far stays in the transaction even if a
     /// later statement is aborted with [`WriteTxn::abort_statement`].
     pub fn end_statement(&mut self) {
